@@ -353,10 +353,37 @@ def driveSplit (v st nt ops : String) : String :=
   | some v, some st, some nt, some ops => Parse.joinWith "|" (srunShow v (sinit st nt) ops)
   | _, _, _, _ => "bad-request"
 
+/-! `cas final <status> <ntasks> <op;…>` : the same run, answered with the outcomes of the write / retry ops only and the
+    final row with the payload SORTED (which writers' modifications are present, whatever the commit order):
+    `<out,out,…>#<version>.<status>.<sorted payload>#<tasks>`.  Used for store-level call logs of engine handlers
+    (harness/engine_pairs.py), where only the final durable row is observed. -/
+
+def isWrite : Op → Bool
+  | .write _ _ _ => true
+  | .retry _ _ _ => true
+  | _ => false
+
+def runOuts (s : State) : List Op → List String × State
+  | [] => ([], s)
+  | op :: rest =>
+    let (s', o) := step s op
+    let (outs, sf) := runOuts s' rest
+    (if isWrite op then o.show :: outs else outs, sf)
+
+def driveFinal (st nt ops : String) : String :=
+  match Parse.nat? st, Parse.nat? nt, Parse.all? parseOp (Parse.splitNE ops ";") with
+  | some st, some nt, some ops =>
+    let (outs, sf) := runOuts (init st nt) ops
+    let d := sf.db
+    (if outs.isEmpty then "-" else Parse.joinWith "," outs) ++ "#" ++
+      showDb { d with content := { d.content with payload := (d.content.payload.toArray.qsort (· < ·)).toList } }
+  | _, _, _ => "bad-request"
+
 def drive (rest : String) : String :=
   match rest.splitOn " " with
   | ["upsert", rows, t] => driveUpsert rows t
   | ["split", v, st, nt, ops] => driveSplit v st nt ops
+  | ["final", st, nt, ops] => driveFinal st nt ops
   | [st, nt, ops] =>
     match Parse.nat? st, Parse.nat? nt, Parse.all? parseOp (Parse.splitNE ops ";") with
     | some st, some nt, some ops => Parse.joinWith "|" (runShow (init st nt) ops)
